@@ -2,6 +2,7 @@
    against the declarative counters of StatsSpec.v. *)
 From CV Require Import Model.Base Model.Events Model.Gherkin Model.Combinators Model.Stats Model.Pipeline
   Model.StatsSpec Model.Contract Check.Verdict Check.StatsCase.
+From CV Require Proofs.StatsP2.
 
 Definition writes_in (call : qouts) : list (list N) :=
   flat_map (fun d => match snd d with QWrite w => [w] | _ => [] end) call.
@@ -42,8 +43,20 @@ Definition c12_ok (c : scase) : bool :=
   | None => match all_writes with [] => true | _ => false end
   end.
 
+Definition theorem_applies (c : scase) : bool :=
+  let fs := sc_features c in
+  let evs := before_finished (effective c) in
+  (k12_class (last_own_of fs) (steps_of_fs fs) (effective c) =? 0)
+  && retry_consistent evs
+  && StatsP2.wf_attempts (steps_of_fs fs) evs
+  && StatsP2.last_own_consistent (last_own_of fs) (steps_of_fs fs) evs.
+
 Definition verdict (id : N) (c : scase) : list (list N) :=
   let fs := sc_features c in
   let known := k12_class (last_own_of fs) (steps_of_fs fs) (effective c) in
-  if contract_prefix (map snd (sc_events c)) && retry_consistent (effective c) then [vrow id 1 (judge (c12_ok c) (same_as_model c) known)]
+  if contract_prefix (map snd (sc_events c)) && retry_consistent (effective c) then
+    [vrow id 1 (judge (c12_ok c) (same_as_model c) known);
+     (* informational row (sub-check 90, never a failure): do the hypotheses of the scenario-counter theorem
+        (Props/C12.v: C12_scenario_counters) hold of this stream? *)
+     [id; 90; 0; if theorem_applies c then 1 else 0]]
   else [vrow id 1 (4, 0)].
